@@ -69,6 +69,19 @@ Definition search_identity_transfer : list Z :=
 Definition search_lut_monotone : list Z :=
   search_bytes (fun c => (c =? 255) || ((lut_into_linear_ch c <=? lut_into_linear_ch (c + 1)) && (lut_from_linear_ch c <=? lut_from_linear_ch (c + 1)))).
 
+(* feConvolveMatrix (extension round 4): a grid of 1x1 kernels k4/4, divisors div4/4, biases bias4/4, both preserveAlpha values, grey
+   pixels: the first [preserve; k4; div4; bias4; c; a] at which the source-derived closure stores a colour channel above alpha *)
+Definition cvq (n : Z) : f32 := fdiv (of_Z n) (of_Z 4).
+Definition cv_case (pv : bool) (k4 d4 b4 c a : Z) : list (list Z) :=
+  if valid_pxb (px_convolve_uniform pv (cvq d4) (cvq b4) [cvq k4] (grey c a)) then []
+  else [[if pv then 1 else 0; k4; d4; b4; c; a]].
+Definition cv_grid : list (bool * Z * Z * Z * Z) :=
+  flat_map (fun pv : bool => flat_map (fun k4 : Z => flat_map (fun d4 : Z => flat_map (fun b4 : Z => map (fun a : Z => (pv, k4, d4, b4, a))
+    [255; 200; 128; 64; 1]) [0; 2; 4; -2]) [4; 2; 8; -4]) [2; 4; 8; 3; -4]) [false; true].
+Definition search_convolve_valid : list Z :=
+  hd [] (flat_map (fun t : bool * Z * Z * Z * Z => let '(pv, k4, d4, b4, a) := t in
+                   cv_case pv k4 d4 b4 0 a ++ cv_case pv k4 d4 b4 (a / 2) a ++ cv_case pv k4 d4 b4 a a) cv_grid).
+
 (* draw_pixmap with BlendMode::Xor (clip_group), alpha channel: nearest integer of the exact value *)
 Definition xor_alpha_table (d : Z) : list Z := flat_map (fun sa => map (fun s => xor_alpha_u8 sa d) bytes) bytes.
 
